@@ -626,6 +626,10 @@ _dispatch_transform_from_base32_with_table(dispatch_data_t data,
 			if (value == -2) {
 				value = 0;
 				pad++;
+			} else if (pad) {
+				// data after the padding
+				free(dest);
+				return (bool)false;
 			}
 
 			x <<= 5;
@@ -637,24 +641,33 @@ _dispatch_transform_from_base32_with_table(dispatch_data_t data,
 				*ptr++ = (x >> 16) & 0xff;
 				*ptr++ = (x >> 8) & 0xff;
 				*ptr++ = x & 0xff;
+				// The padding shortens the group it belongs to, which may
+				// have started in an earlier region: trim it here, once,
+				// when that group is complete.
+				switch (pad) {
+				case 0:
+					break;
+				case 1:
+					ptr -= 1;
+					break;
+				case 3:
+					ptr -= 2;
+					break;
+				case 4:
+					ptr -= 3;
+					break;
+				case 6:
+					ptr -= 4;
+					break;
+				default:
+					// not a valid amount of padding
+					free(dest);
+					return (bool)false;
+				}
 			}
 		}
 
 		size_t final = (size_t)(ptr - dest);
-		switch (pad) {
-		case 1:
-			final -= 1;
-			break;
-		case 3:
-			final -= 2;
-			break;
-		case 4:
-			final -= 3;
-			break;
-		case 6:
-			final -= 4;
-			break;
-		}
 
 		dispatch_data_t val = dispatch_data_create(dest, final, NULL,
 				DISPATCH_DATA_DESTRUCTOR_FREE);
@@ -874,6 +887,10 @@ _dispatch_transform_from_base64(dispatch_data_t data)
 			if (value == -2) {
 				value = 0;
 				pad++;
+			} else if (pad) {
+				// data after the padding
+				free(dest);
+				return (bool)false;
 			}
 
 			x <<= 6;
@@ -883,14 +900,20 @@ _dispatch_transform_from_base64(dispatch_data_t data)
 				*ptr++ = (x >> 16) & 0xff;
 				*ptr++ = (x >> 8) & 0xff;
 				*ptr++ = x & 0xff;
+				// The padding shortens the group it belongs to, which may
+				// have started in an earlier region: trim it here, once,
+				// when that group is complete.
+				if (pad > 2) {
+					// not a valid amount of padding
+					free(dest);
+					return (bool)false;
+				}
+				// 2 bytes of pad means only had one char in final group
+				ptr -= pad;
 			}
 		}
 
 		size_t final = (size_t)(ptr - dest);
-		if (pad > 0) {
-			// 2 bytes of pad means only had one char in final group
-			final -= pad;
-		}
 
 		dispatch_data_t val = dispatch_data_create(dest, final, NULL,
 				DISPATCH_DATA_DESTRUCTOR_FREE);
